@@ -213,7 +213,27 @@ def run(ctx):
                     fc = k_.value
             if fc is None and len(c_.args) >= 2:
                 fc = c_.args[1] if norm(c_.func) == "_FIFOWrapper.__init__" else c_.args[0]
-    lv = _leaves(fc) if fc is not None else set()
+    lv = set()
+    if fc is not None:
+        # by value first: the selecting expression evaluated for buffered = False / True (conditional expression, table lookup, ...)
+        from .. import pyconst as _pc5
+        fifo_ns = _pc5.NS(**{n_: f"fifo.{n_}" for n_ in ("AsyncFIFO", "AsyncFIFOBuffered", "SyncFIFO", "SyncFIFOBuffered")})
+        try:
+            for b_ in (False, True):
+                loc5 = {"buffered": b_, "fifo": fifo_ns}
+                it5 = _pc5.Interp(loc5, exact=True)
+                pre = [st_ for st_ in init_a.body if not any(isinstance(c_, ast.Call) and norm(c_.func) in ("_FIFOWrapper.__init__", "super().__init__")
+                                                           for c_ in ast.walk(st_)) and not isinstance(st_, ast.Assert)]
+                try:
+                    it5.run([st_ for st_ in pre if isinstance(st_, (ast.Assign, ast.If)) and "fifo" in norm(st_)])
+                except Exception:   # noqa
+                    pass
+                v5 = it5.ev(fc)
+                if not isinstance(v5, str):
+                    raise ValueError(v5)
+                lv.add(v5)
+        except Exception:           # noqa: not evaluable -> read the leaves of the expression
+            lv = _leaves(fc)
     ok = bool(lv) and lv <= {"fifo.AsyncFIFO", "fifo.AsyncFIFOBuffered"}
     ctx.ob("X1", STREAM, "AsyncFIFO", "wrapped FIFO class is a two-clock FIFO in every configuration", ok,
            "" if ok else f"fifo_class can be {sorted(lv)}: a single-clock FIFO behind the crossing is clocked by `sys`, its write and read "
